@@ -48,7 +48,7 @@ def run_inter(case, mon):
     rng = gen.rng_for(case['seed'], case['idx'], 5)
     sample = None
     for k in range(5):
-        w = work_inter.draw(rng, maxsites=6)
+        w = work_inter.draw(rng, maxsites=6, noncentro=0.2)
         if w is None: continue
         if sample is None: sample = w['desc']
         with mon.guard('C05:interstitial'):
